@@ -53,9 +53,39 @@ def gen_gap_case(rng, i):
     return ops, False
 
 
+def gen_lying_case(rng, i):
+    """a link cut off after its first audio page(s), that page claiming a granule position far below (or above) what was decoded on it and no
+    end-of-stream flag — optionally followed by another link; then reads to the end of what is there and every kind of cross-lap from it"""
+    ops = ["case %d" % i, "link %d %d %s %d %d %d 0 %d" % (rng.choice([1, 2]), rng.choice([8000, 44100]), rng.choice([0.1, 0.4]), rng.choice([20000, 60000]),
+                                                         rng.randrange(6), rng.randrange(1, 90000), rng.choice([0, 0, 200, 1000]))]
+    first = rng.choice([2, 2, 2, 3])                                 # (page 2 is the first audio page of an encoder-made link)
+    ops.append("pagedamage 17 %d 0 0" % first)                       # everything behind page `first` is lost
+    ops.append("pagedamage 10 %d 0 %d" % (first, rng.choice([1, 1, 0, 5, 300, 2 ** 40, -5])))
+    if rng.random() < 0.4:
+        ops.append(V.gen_links(rng, 1, tiny=True)[0])
+    ops.append("open 0 1 %d" % rng.choice([4096, 1, 100000]))
+    ops.append("open 1 1 4096")
+    for _ in range(rng.randint(3, 8)):
+        ops += ["read 0 4096"] * rng.choice([0, 1, 3, 8])
+        k = rng.choice(["pcmseeklap", "rawseeklap", "pcmseekpagelap", "timeseeklap", "crosslap", "crosslap", "pcmseek", "rawseek"])
+        if k == "crosslap":
+            ops.append("crosslap 0 1")
+            ops.append("read 1 4096")
+        elif k.startswith("raw"):
+            ops.append("%s 0 %d" % (k, rng.randrange(0, 9000)))
+        elif k.startswith("time"):
+            ops.append("%s 0 %d" % (k, rng.randrange(0, 400)))
+        else:
+            ops.append("%s 0 %d" % (k, rng.randrange(0, 3000)))
+    ops += ["clear 0", "clear 1"]
+    return ops, False
+
+
 def gen_case(rng, i, tier, setups):
     if i % 12 == 5:
         return gen_gap_case(rng, i)
+    if i % 12 == 7:
+        return gen_lying_case(rng, i)
     ops = ["case %d" % i]
     style = rng.random()
     intact = False
